@@ -84,6 +84,11 @@ def gen_wav(run):
           rate = [8000, 44100, 1, 96000][idx % 4]
           idx += 1
           yield (width, si, None, channels, keep, route, rate, run.tier)
+    # long files: many frames, so that any batched reading meets a batch boundary
+    for channels in (1, 2):
+      for keep in (False, True):
+        for frames in (343, 1025, 2050):
+          yield (width, -1, frames, channels, keep, "path" if frames % 2 else "fileobj", 8000, run.tier)
     for n in range(0, 6):
       for channels in (1, 2):
         for keep in (False, True):
@@ -105,7 +110,12 @@ wave.Wave_read.close = _counting_close
 
 def run_wav(case):
   width, si, nframes, channels, keep, route, rate, tier = case
-  samples = sample_sets(width, tier)[si]
+  if si == -1:
+    base = sample_sets(width, tier)[0]
+    samples = [base[(i * 7) % len(base)] for i in range(nframes * channels)]
+    nframes = None
+  else:
+    samples = sample_sets(width, tier)[si]
   if nframes is not None:
     samples = samples[7:7 + nframes * channels]
   if len(samples) % channels:
